@@ -22,6 +22,7 @@ import (
 	"path/filepath"
 	"runtime"
 	"sync"
+	"sync/atomic"
 	"time"
 
 	"verifh/c06/rt"
@@ -70,10 +71,17 @@ type Req struct {
 	ID string `json:"id"`
 }
 
+// Leave: an early plugin that disconnects when its handler is invoked for the After-th time.
+type Leave struct {
+	Name  string `json:"name"`
+	After int    `json:"after"`
+}
+
 type ConcIn struct {
 	Kind    string    `json:"kind"` // "conc"
 	Plugins []rt.Spec `json:"plugins"`
 	Late    []rt.Spec `json:"late"`
+	Leaving []Leave   `json:"leaving"`
 	Callers [][]Req   `json:"callers"`
 	Procs   int       `json:"procs"`
 }
@@ -156,8 +164,31 @@ func runConc(dir string, in *ConcIn) (obs ConcObs) {
 	}
 	defer r.Close()
 	yield := func(*rt.Plugin, int, string) error { runtime.Gosched(); return nil }
+	// A leaving plugin disconnects by itself, from inside its handler, when it is invoked for
+	// the After-th time (stamp already taken; its reply is lost with the connection). Disconnecting from outside while a request is on its way would
+	// let the handler start after the runtime has given up on it: a stamp that says nothing
+	// about when the relay took place.
 	for _, s := range in.Plugins {
-		if _, err := r.Connect(s, rt.ConnectOpts{Hook: yield}); err != nil {
+		hook := yield
+		for _, l := range in.Leaving {
+			if l.Name == s.Name {
+				var n atomic.Int64
+				after := int64(l.After)
+				if after < 1 {
+					after = 1
+				}
+				hook = func(p *rt.Plugin, ev int, req string) error {
+					runtime.Gosched()
+					if n.Add(1) == after {
+						// synchronously: when this returns the connection is gone, the reply cannot be
+						// sent, and (the runtime being inside this very call) nothing else is on its way
+						p.Stop()
+					}
+					return nil
+				}
+			}
+		}
+		if _, err := r.Connect(s, rt.ConnectOpts{Hook: hook}); err != nil {
 			obs.Fail = "reg: " + err.Error()
 			return
 		}
@@ -361,6 +392,20 @@ func genConc(o *hx.Opts, i int) *ConcIn {
 		in.Callers = append(in.Callers, reqs)
 	}
 	in.Procs = []int{0, 0, 1, 2, 4}[rnd.Intn(5)]
+	in.Leaving = []Leave{}
+	if len(in.Plugins) > 1 && rnd.Intn(3) == 0 {
+		for k := 1 + rnd.Intn(2); k > 0; k-- {
+			p := in.Plugins[rnd.Intn(len(in.Plugins))]
+			dup := false
+			for _, l := range in.Leaving {
+				dup = dup || l.Name == p.Name
+			}
+			// vetoing plugins stay: a vanished veto would make later requests succeed either way
+			if !dup && p.Veto == 0 && p.Clash == 0 {
+				in.Leaving = append(in.Leaving, Leave{Name: p.Name, After: 1 + rnd.Intn(25)})
+			}
+		}
+	}
 	return in
 }
 
